@@ -219,6 +219,10 @@ def _c():
     return st.one_of(
         st.sampled_from([0.0, 1.0, 0.0, 1.0, 0.5, 0.25, 0.75, 1e-6, 0.999999]),
         st.integers(0, 10**6).map(lambda k: k / 10**6),
+        # the neighbourhoods of the two special values (balanced and single-stream forms switch there)
+        st.integers(1, 5000).map(lambda k: 1 - k / 10**6),
+        st.integers(1, 5000).map(lambda k: k / 10**6),
+        st.sampled_from([0.99, 0.995, 0.999, 0.9995, 0.9999, 0.01, 0.001]),
     )
 
 
